@@ -54,8 +54,30 @@ pub fn case_strategy() -> impl Strategy<Value = LiqCase> {
         prop_oneof![1 => Just(0u64), 2 => 1_000_000u64..1_000_000_000_000_000],
         (prop_oneof![2 => 1u64..1000, 2 => 1000u64..1_000_000_000_000, 6 => 1u64..=65_536, 2 => 0u64..5], 0u8..3),
         (prop_oneof![Just(0u32), 1u32..90, 1000u32..20_000_000], prop::bool::weighted(0.35), prop::bool::weighted(0.15), prop::bool::weighted(0.3)),
+        // staked world: the collateral (and the extra bank) are real staked-collateral banks, the debt bank is SOL-tagged
+        (prop::bool::weighted(0.12), prop::array::uniform2((1_000_000_000u64..2_000_000_000_000_000, 500u32..3000))),
     )
-        .prop_map(|(mut banks, collateral, borrow_frac, extra_collateral, target_pm, liq_deposit_frac, liq_collateral, (q, qr), (wait, emode, reduce_only_collateral, stale_extra))| {
+        .prop_map(|(mut banks, collateral, borrow_frac, extra_collateral, target_pm, liq_deposit_frac, liq_collateral, (q, qr), (wait, emode, reduce_only_collateral, stale_extra), (staked_world, pools))| {
+            let emode = emode && !staked_world;
+            if staked_world {
+                let mut feed = banks[1].oracle.clone();
+                if feed.kind != 1 {
+                    feed = OracleSpec::pyth(feed.mant, feed.expo, (feed.mant as u64) / 400);
+                }
+                banks[1].oracle = feed.clone();
+                banks[1].asset_tag = 1;
+                banks[1].isolated = false;
+                for (j, i) in [0usize, 2usize].into_iter().enumerate() {
+                    let (supply, rate_pm) = pools[j];
+                    banks[i].staked = Some(StakedSpec { supply, stake: ((supply as u128 * rate_pm as u128 / 1000) as u64).saturating_add(1_000_000_000) });
+                    banks[i].oracle = OracleSpec { kind: 3, ..feed.clone() };
+                    banks[i].asset_tag = 2;
+                    banks[i].token = 0;
+                    banks[i].decimals = 9;
+                    banks[i].aw_i = banks[i].aw_i.min(1_000_000);
+                    banks[i].aw_m = banks[i].aw_m.max(banks[i].aw_i);
+                }
+            }
             // bank 0 = collateral (must carry weight), bank 1 = liability (default tag), bank 2 = extra collateral
             let emode = emode && !banks[1].emode_entries.is_empty();
             let boosted_tag = banks[1].emode_entries.first().map(|e| e.tag).unwrap_or(0);
@@ -437,6 +459,9 @@ pub fn run(ctx: &Ctx) -> Report {
                 }
                 if st.success && c.emode {
                     rep.label("success:emode-boosted-collateral");
+                }
+                if st.success && c.spec.banks[0].staked.is_some() {
+                    rep.label("success:staked-collateral");
                 }
                 if st.success && c.reduce_only_collateral {
                     rep.label("success:reduce-only-collateral");
